@@ -353,7 +353,7 @@ class SymDomain(BaseDomain):
             return Namespace("scipy", sparse=self.sparse, linalg=self.scipy_linalg)
         if name == "scipy.linalg":
             return self.scipy_linalg
-        if name in ("itertools", "functools"):
+        if name in ("itertools", "functools", "bisect"):
             return self.std_module(name)
         if name == "numpy.fft":
             return Namespace("numpy.fft")
@@ -465,6 +465,8 @@ class SymDomain(BaseDomain):
             unravel_index=np.unravel_index, ravel_multi_index=np.ravel_multi_index, mod=lambda a, b: a % b, floor_divide=lambda a, b: a // b,
             cumsum=lambda a, axis=None: SymArr(np.cumsum(np.asarray(wrap(a), dtype=object), axis=axis), wrap(a).kind),
             ndindex=np.ndindex, ndenumerate=lambda a: [(i, wrap(a)[i]) for i in np.ndindex(*wrap(a).shape)],
+            fromiter=lambda it, dtype=None, count=-1: d.np_array(list(d._it(it))),
+            asanyarray=lambda a, dtype=None: d.np_array(a, dtype=dtype, copy=False),
             ascontiguousarray=lambda a, **k: wrap(a).copy(), asfortranarray=lambda a, **k: SymArr(np.asfortranarray(np.asarray(wrap(a), dtype=object)), wrap(a).kind),
             sign=d.np_sign, diff=d.np_diff, exp=lambda v: d._elem_fn("exp", v), log=lambda v: d._elem_fn("log", v),
             triu_indices=lambda n, k=0, m=None: np.triu_indices(n, k, m), tril_indices=lambda n, k=0, m=None: np.tril_indices(n, k, m),
@@ -507,6 +509,39 @@ class SymDomain(BaseDomain):
             else:
                 flat[i] = Poly.atom(("uninit", t, i))
         return with_dt(a, dt_of(dtype))
+
+    def arr_view(self, a, dtype):
+        """ndarray.view(dtype) between float64 / complex128 / quaternion item sizes on the last axis (modelled as a fresh array:
+        a store through such a view is not propagated, the interpreter's setitem is not reached by repository code for these)"""
+        if dtype is None:
+            return a
+        kind = dtype_kind(dtype)
+        width = {"real": 1, "complex": 2, "quat": 4}
+        if kind not in width or a.kind not in width or a.ndim == 0:
+            raise Unsupported(f"view({dtype!r}) of a {a.kind} array")
+        # flatten the last axis to float64 components, then regroup
+        flat = []
+        for idx in itertools.product(*[range(s_) for s_ in a.shape[:-1]]):
+            row = []
+            for v in np.asarray(a, dtype=object)[idx]:
+                if a.kind == "quat":
+                    row.extend(SQ.lift(v).c)
+                elif a.kind == "complex":
+                    cv = SC.lift(v)
+                    row.extend([cv.re, cv.im])
+                else:
+                    row.append(v)
+            flat.append((idx, row))
+        w = width[kind]
+        n_last = a.shape[-1] * width[a.kind]
+        if n_last % w:
+            raise ModelError("view: last axis is not a multiple of the new item size")
+        out = mk(a.shape[:-1] + (n_last // w,), kind)
+        for idx, row in flat:
+            for j in range(n_last // w):
+                chunk = row[j * w:(j + 1) * w]
+                out[idx + (j,)] = chunk[0] if w == 1 else (SC(*chunk) if w == 2 else SQ(*chunk))
+        return out
 
     def np_isclose(self, a, b, rtol=1e-05, atol=1e-08, **k):
         """tolerance comparison |a-b| <= atol + rtol|b|: an UNKNOWN of its own kind (rules treat it as a tolerance test, never as an
@@ -1013,7 +1048,58 @@ class SymDomain(BaseDomain):
         return SymArr(r, a.kind)
 
     def np_where(self, cond, a=None, b=None):
-        raise Unsupported("np.where on symbolic data")
+        """np.where(cond) -> indices of the true entries; np.where(cond, a, b) -> elementwise selection.  A condition that depends on
+        data is the elementwise maximum / minimum when it compares exactly the two alternatives (np.where(v > c, v, c)), otherwise it
+        is decided through the chooser like an `if`."""
+        if a is None and b is None:
+            return self.np_nonzero(cond)
+        if a is None or b is None:
+            raise ModelError("np.where: either both or neither of x and y should be given")
+        cw = wrap(cond) if isinstance(cond, (SymArr, np.ndarray, list, tuple)) else None
+        aw = wrap(a) if isinstance(a, (SymArr, np.ndarray, list, tuple)) else None
+        bw = wrap(b) if isinstance(b, (SymArr, np.ndarray, list, tuple)) else None
+        arrs = [np.asarray(x, dtype=object) for x in (cw, aw, bw) if x is not None]
+        shape = np.broadcast_shapes(*[x.shape for x in arrs]) if arrs else ()
+
+        def bc(x, xw):
+            if xw is None:
+                o = np.empty(shape, dtype=object)
+                for idx in np.ndindex(*shape):
+                    o[idx] = x
+                return o
+            return np.broadcast_to(np.asarray(xw, dtype=object), shape)
+        C, A, B = bc(cond, cw), bc(a, aw), bc(b, bw)
+        kind = combine_kind(aw if aw is not None else a, bw if bw is not None else b)
+        out = mk(shape, kind if kind in ("real", "complex", "quat", "int") else "real")
+        for idx in np.ndindex(*shape):
+            c, x, y = C[idx], A[idx], B[idx]
+            if isinstance(c, (bool, np.bool_)):
+                out[idx] = x if c else y
+                continue
+            t = c if is_unknown(c) else self.truth(c)
+            if not is_unknown(t):
+                out[idx] = x if t else y
+                continue
+            why = getattr(t, "why", None)
+            done = False
+            if isinstance(why, tuple) and len(why) == 3 and why[0] in ("gt", "ge", "lt", "le"):
+                try:
+                    l, r, px, py = P(why[1]), P(why[2]), P(x), P(y)
+                    if l.same(px) and r.same(py):
+                        out[idx] = self.sym_minmax("max" if why[0] in ("gt", "ge") else "min", [x, y])
+                        done = True
+                    elif l.same(py) and r.same(px):
+                        out[idx] = self.sym_minmax("min" if why[0] in ("gt", "ge") else "max", [x, y])
+                        done = True
+                except TypeError:
+                    pass
+            if not done:
+                if self._interp is None:
+                    raise Unsupported("data dependent np.where")
+                out[idx] = x if self._interp.decide(self._cur_node, t) else y
+        if shape == ():
+            return out[()]
+        return out
 
     def np_diag(self, a, k=0):
         a = wrap(a)
@@ -1458,6 +1544,14 @@ class SymDomain(BaseDomain):
                     r = with_dt(r.copy() if r is a else r, None)
                 return r
             return astype
+        if attr == "all":
+            return lambda axis=None, **k: self.np_all(a, axis=axis, **k)
+        if attr == "any":
+            return lambda axis=None, **k: self.np_any(a, axis=axis, **k)
+        if attr == "diagonal":
+            return lambda offset=0: SymArr(np.diagonal(np.asarray(a, dtype=object), offset).copy(), a.kind)
+        if attr == "view":
+            return lambda dtype=None, **k: self.arr_view(a, dtype)
         if attr == "sum":
             return lambda axis=None, **k: self.np_sum(a, axis=axis, **k)
         if attr == "max":
@@ -1539,7 +1633,7 @@ class SymDomain(BaseDomain):
                             v = self._interp.decide(self._cur_node, v)
                         dec.append(bool(v))
                     return np.asarray(dec, dtype=bool).reshape(i.shape)
-                return np.asarray([int(P(v).const_value()) for v in flat]).reshape(i.shape)
+                return np.asarray([int(P(v).const_value()) for v in flat], dtype=np.intp).reshape(i.shape)
             if isinstance(i, slice):
                 return slice(one(i.start) if i.start is not None else None, one(i.stop) if i.stop is not None else None,
                              one(i.step) if i.step is not None else None)
